@@ -9,17 +9,18 @@
 //! VM side: a real `Transactor::deploy` on a fresh `MemoryStorage` (which key holds the
 //! bytecode), a second deployment of the same transaction, a script executing `CROO` on the
 //! deployed contract, and `check_predicates` with a right / wrong predicate owner.
-use fuel_vm::checked_transaction::{CheckPredicateParams, CheckPredicates, EstimatePredicates, IntoChecked};
+use fuel_vm::checked_transaction::{CheckError, CheckPredicateParams, CheckPredicates, EstimatePredicates, IntoChecked, ParallelExecutor};
 use fuel_vm::error::{InterpreterError, PredicateVerificationFailed};
 use fuel_vm::fuel_asm::{op, PanicReason, RegId};
 use fuel_vm::fuel_storage::StorageInspect;
 use fuel_vm::fuel_tx::{
     policies::Policies, Cacheable, Bytes32, ConsensusParameters, Contract, ContractId, Finalizable, Input, Output, Receipt, Salt,
-    StorageSlot, Transaction, TransactionBuilder, ValidityError, Witness,
+    FormatValidityChecks, StorageSlot, Transaction, TransactionBuilder, TxPointer, UniqueIdentifier, UtxoId, ValidityError, Witness,
 };
-use fuel_vm::fuel_types::{Address, AssetId};
+use fuel_vm::fuel_types::{Address, AssetId, Nonce, Word};
 use fuel_vm::interpreter::{InterpreterParams, MemoryInstance, NotSupportedEcal};
-use fuel_vm::prelude::{Create, InterpreterStorage, Script};
+use fuel_vm::pool::DummyPool;
+use fuel_vm::prelude::{predicates, Create, InterpreterStorage, Script};
 use fuel_vm::storage::predicate::EmptyStorage;
 use fuel_vm::storage::{ContractsRawCode, MemoryStorage};
 use fuel_vm::transactor::Transactor;
@@ -27,6 +28,8 @@ use fvh::vmtrace::{run_plain, FinalState, GasSchedule, TxSpec, World};
 use fvh::*;
 use serde_json::{json, Value};
 use std::collections::BTreeMap;
+use std::sync::atomic::{AtomicU64, Ordering};
+use std::sync::Mutex;
 
 type B32 = [u8; 32];
 const AMOUNT: u64 = 1000;
@@ -628,6 +631,295 @@ fn predicate_vm_case(out: &mut Out, rng: &mut Rng, tail: Vec<u8>) {
     }
 }
 
+// ------------------------------------------------------------------ predicate owner through EVERY entry point
+static SHUFFLE_SEED: AtomicU64 = AtomicU64::new(0);
+static LAST_ORDER: Mutex<Vec<usize>> = Mutex::new(Vec::new());
+
+/// Runs the tasks on tokio's blocking pool and delivers the results in a seeded random order
+/// (a copy of the executor of auth.rs; binaries do not share files).
+struct ShuffleExec;
+impl ParallelExecutor for ShuffleExec {
+    type Task = tokio::task::JoinHandle<(usize, Result<Word, PredicateVerificationFailed>)>;
+
+    fn create_task<F>(func: F) -> Self::Task
+    where
+        F: FnOnce() -> (usize, Result<Word, PredicateVerificationFailed>) + Send + 'static,
+    {
+        tokio::task::spawn_blocking(func)
+    }
+
+    fn execute_tasks<'async_trait>(
+        futures: Vec<Self::Task>,
+    ) -> core::pin::Pin<Box<dyn core::future::Future<Output = Vec<(usize, Result<Word, PredicateVerificationFailed>)>> + Send + 'async_trait>> {
+        Box::pin(async move {
+            let mut res = vec![];
+            for f in futures {
+                res.push(Some(f.await.expect("predicate task panicked")));
+            }
+            let mut order: Vec<usize> = (0..res.len()).collect();
+            let mut rng = Rng::new(SHUFFLE_SEED.load(Ordering::SeqCst));
+            rng.shuffle(&mut order);
+            let delivered = order.iter().map(|&k| res[k].take().unwrap()).collect();
+            *LAST_ORDER.lock().unwrap() = order;
+            delivered
+        })
+    }
+}
+
+/// verdict of one entry point with respect to predicate ownership
+#[derive(Clone, Debug, PartialEq)]
+enum OwnerVerdict {
+    Accepted,
+    /// rejected because of the owner of the predicate input at this index
+    /// (PredicateVerificationFailed::InvalidOwner / ValidityError::InputPredicateOwner)
+    Owner(usize),
+    Other(String),
+}
+impl OwnerVerdict {
+    fn coq(&self) -> String {
+        match self {
+            OwnerVerdict::Accepted => "None".into(),
+            OwnerVerdict::Owner(i) => format!("(Some {i})"),
+            OwnerVerdict::Other(_) => "None".into(),
+        }
+    }
+}
+fn ov_pred<T>(r: Result<T, PredicateVerificationFailed>) -> OwnerVerdict {
+    match r {
+        Ok(_) => OwnerVerdict::Accepted,
+        Err(PredicateVerificationFailed::InvalidOwner { index }) => OwnerVerdict::Owner(index),
+        Err(e) => OwnerVerdict::Other(format!("{e:?}")),
+    }
+}
+fn ov_check<T>(r: Result<T, CheckError>) -> OwnerVerdict {
+    match r {
+        Ok(_) => OwnerVerdict::Accepted,
+        Err(CheckError::PredicateVerificationFailed(PredicateVerificationFailed::InvalidOwner { index })) => OwnerVerdict::Owner(index),
+        Err(CheckError::Validity(ValidityError::InputPredicateOwner { index })) => OwnerVerdict::Owner(index),
+        Err(e) => OwnerVerdict::Other(format!("{e:?}")),
+    }
+}
+fn ov_validity(r: Result<(), ValidityError>) -> OwnerVerdict {
+    match r {
+        Ok(()) => OwnerVerdict::Accepted,
+        Err(ValidityError::InputPredicateOwner { index }) => OwnerVerdict::Owner(index),
+        Err(e) => OwnerVerdict::Other(format!("{e:?}")),
+    }
+}
+
+#[derive(Clone, Copy, Debug, PartialEq)]
+enum OwnerKind {
+    Right,
+    Foreign,
+    FlippedBit,
+    /// the code root itself, without the seed
+    BareCodeRoot,
+    /// the (right) owner of ANOTHER predicate of the same transaction
+    OtherPredicate,
+}
+
+/// One transaction with 1..3 predicate inputs (Coin / MessageCoin / MessageData), optionally
+/// behind a contract input, each `ret 1 ++ tail`; every public entry point that is supposed
+/// to validate predicate ownership is run on it.  Expected everywhere: rejected exactly when
+/// some owner != sha256(seed || code root), naming the first such input (any such input for a
+/// shuffled parallel delivery).
+fn owner_paths_case(out: &mut Out, rt: &tokio::runtime::Runtime, case_seed: u64, with_model: bool) {
+    let mut rng = Rng::new(case_seed);
+    let replay = json!({"kind":"owners","case_seed":case_seed});
+    let params = ConsensusParameters::standard();
+    let cpp: CheckPredicateParams = (&params).into();
+    let n = 1 + rng.below(3) as usize;
+    let lead_contract = rng.chance(1, 4);
+    // distinct codes
+    let codes: Vec<Vec<u8>> = (0..n)
+        .map(|j| {
+            let mut c = predicate_true();
+            let tail_len = *rng.pick(&[0usize, 0, 3, 4, 8, 12, 40, 100, 16381]);
+            let mut tail = gen_code(&mut rng, tail_len).bytes;
+            tail.push(j as u8 + 1);
+            c.extend(tail);
+            c
+        })
+        .collect();
+    let all_right = rng.chance(1, 4);
+    let kinds: Vec<OwnerKind> = (0..n)
+        .map(|_| {
+            if all_right {
+                OwnerKind::Right
+            } else {
+                *rng.pick(&[OwnerKind::Right, OwnerKind::Foreign, OwnerKind::FlippedBit, OwnerKind::BareCodeRoot, OwnerKind::OtherPredicate])
+            }
+        })
+        .collect();
+    let mut inputs: Vec<Input> = vec![];
+    if lead_contract {
+        inputs.push(Input::contract(UtxoId::new(rng.bytes32().into(), 0), Bytes32::zeroed(), Bytes32::zeroed(), TxPointer::default(), ContractId::from(rng.bytes32())));
+    }
+    let mut abstract_inputs: Vec<Option<(B32, Vec<u8>)>> = inputs.iter().map(|_| None).collect();
+    let mut desc = vec![];
+    for j in 0..n {
+        let right = ref_predicate_owner(&codes[j]);
+        let (kind, owner): (OwnerKind, B32) = match kinds[j] {
+            OwnerKind::Right => (OwnerKind::Right, right),
+            OwnerKind::Foreign => (OwnerKind::Foreign, rng.bytes32()),
+            OwnerKind::FlippedBit => {
+                let mut o = right;
+                o[rng.below(32) as usize] ^= 1 << rng.below(8);
+                (OwnerKind::FlippedBit, o)
+            }
+            OwnerKind::BareCodeRoot => (OwnerKind::BareCodeRoot, ref_code_root(&codes[j])),
+            OwnerKind::OtherPredicate if n >= 2 => (OwnerKind::OtherPredicate, ref_predicate_owner(&codes[(j + 1) % n])),
+            OwnerKind::OtherPredicate => (OwnerKind::Foreign, rng.bytes32()),
+        };
+        // input kind: the first predicate is spendable (coin / message coin), the others any of the three
+        let ik = if j == 0 { rng.below(2) } else { rng.below(3) };
+        let o = Address::from(owner);
+        let input = match ik {
+            0 => Input::coin_predicate(UtxoId::new(rng.bytes32().into(), j as u16), o, AMOUNT, AssetId::BASE, TxPointer::default(), 0, codes[j].clone(), vec![]),
+            1 => Input::message_coin_predicate(Address::from(rng.bytes32()), o, AMOUNT, Nonce::from(rng.bytes32()), 0, codes[j].clone(), vec![]),
+            _ => Input::message_data_predicate(Address::from(rng.bytes32()), o, AMOUNT, Nonce::from(rng.bytes32()), 0, vec![1, 2, 3], codes[j].clone(), vec![]),
+        };
+        let ik_name = ["coin", "message-coin", "message-data"][ik as usize];
+        desc.push(json!({"input":ik_name,"owner":format!("{kind:?}"),"code_len":codes[j].len()}));
+        inputs.push(input);
+        abstract_inputs.push(Some((owner, codes[j].clone())));
+    }
+    let mut outputs = vec![];
+    if lead_contract {
+        outputs.push(Output::contract(0, Bytes32::zeroed(), Bytes32::zeroed()));
+    }
+    outputs.push(Output::change(Address::zeroed(), 0, AssetId::BASE));
+    let tx0: Script = Transaction::script(10_000, predicate_true(), vec![], Policies::new().with_max_fee(0), inputs, outputs, vec![]);
+    // reference: the inputs whose owner is not the specification's predicate owner
+    let wrong: Vec<usize> = abstract_inputs.iter().enumerate().filter_map(|(i, a)| a.as_ref().and_then(|(o, c)| if *o != ref_predicate_owner(c) { Some(i) } else { None })).collect();
+    let want = match wrong.first() {
+        None => OwnerVerdict::Accepted,
+        Some(i) => OwnerVerdict::Owner(*i),
+    };
+    out.oracle_evaluations += 1;
+
+    // ---- estimation (sequential and parallel).  Reference: estimation computes gas and does
+    // NOT validate ownership (check_predicate compares the owner only when verifying), so its
+    // verdict is recorded, not judged; the two estimations must write the same gas.
+    let mut t_seq = tx0.clone();
+    let e_seq = guarded(|| ov_pred(predicates::estimate_predicates(&mut t_seq, &cpp, MemoryInstance::new(), &EmptyStorage, NotSupportedEcal)));
+    let mut t_par = tx0.clone();
+    SHUFFLE_SEED.store(rng.next(), Ordering::SeqCst);
+    let e_par = guarded(|| rt.block_on(async { ov_pred(predicates::estimate_predicates_async::<Script, NotSupportedEcal, ShuffleExec>(&mut t_par, &cpp, &DummyPool, &EmptyStorage, NotSupportedEcal).await) }));
+    let mut t_trait = tx0.clone();
+    let e_trait = guarded(|| ov_check(t_trait.estimate_predicates(&cpp, MemoryInstance::new(), &EmptyStorage)));
+    for (name, e) in [("estimate_predicates", &e_seq), ("estimate_predicates_async", &e_par), ("EstimatePredicates::estimate_predicates", &e_trait)] {
+        match e {
+            Ok(OwnerVerdict::Accepted) => out.count(if wrong.is_empty() { "estimation-right-owners-ok" } else { "estimation-accepts-wrong-owner(by design: ownership is checked only when verifying)" }),
+            Ok(OwnerVerdict::Owner(_)) => out.count("estimation-rejects-wrong-owner"),
+            Ok(OwnerVerdict::Other(x)) => out.oracle_fail("estimate-fails-on-true-predicates", &format!("{name} failed with {x} on always-true predicates"), replay.clone()),
+            Err(p) => out.oracle_fail("estimate-predicates-panic", &format!("{name} panicked: {p}"), replay.clone()),
+        }
+    }
+    let gas = |t: &Script| -> Vec<u64> { fuel_vm::fuel_tx::field::Inputs::inputs(t).iter().map(|i| i.predicate_gas_used().unwrap_or(0)).collect() };
+    if e_seq == Ok(OwnerVerdict::Accepted) && e_par == Ok(OwnerVerdict::Accepted) && (gas(&t_seq) != gas(&t_par) || gas(&t_seq) != gas(&t_trait)) {
+        out.oracle_fail("estimate-seq-par-gas", &format!("sequential and parallel estimation wrote different gas: {:?} vs {:?} vs {:?}", gas(&t_seq), gas(&t_par), gas(&t_trait)), replay.clone());
+    }
+    if e_seq != Ok(OwnerVerdict::Accepted) {
+        // no estimated transaction to continue with (only possible if estimation validates owners)
+        out.notes.push("owners case: estimation did not succeed; verification paths run on the sequentially estimated copy anyway".into());
+    }
+    let tx = t_seq;
+    let id = tx.id(&params.chain_id());
+    let ins = fuel_vm::fuel_tx::field::Inputs::inputs(&tx).to_vec();
+
+    let judge = |out: &mut Out, path: &str, class_path: &str, got: Result<OwnerVerdict, String>, any_wrong_index: bool| -> Option<OwnerVerdict> {
+        match got {
+            Err(p) => {
+                out.oracle_fail(&format!("predicate-owner-panic-on-{class_path}"), &format!("{path} panicked: {p}"), replay.clone());
+                None
+            }
+            Ok(v) => {
+                let ok = match (&v, &want) {
+                    (OwnerVerdict::Accepted, OwnerVerdict::Accepted) => true,
+                    (OwnerVerdict::Owner(i), OwnerVerdict::Owner(w)) => i == w || (any_wrong_index && wrong.contains(i)),
+                    _ => false,
+                };
+                if !ok {
+                    let class = match (&v, &want) {
+                        (OwnerVerdict::Accepted, OwnerVerdict::Owner(_)) => format!("predicate-owner-not-checked-on-{class_path}"),
+                        (OwnerVerdict::Owner(_), OwnerVerdict::Accepted) => format!("predicate-owner-rejected-although-right-on-{class_path}"),
+                        (OwnerVerdict::Owner(_), OwnerVerdict::Owner(_)) => format!("predicate-owner-wrong-index-on-{class_path}"),
+                        _ => format!("predicate-owner-other-error-on-{class_path}"),
+                    };
+                    out.oracle_fail(&class, &format!("{path}: got {v:?}, but the inputs whose owner != sha256(seed || code root) are {wrong:?} (expected {want:?})"), replay.clone());
+                }
+                Some(v)
+            }
+        }
+    };
+
+    // ---- 1. Input-level: is_predicate_owner_valid and check_signature on every input
+    for (i, a) in abstract_inputs.iter().enumerate() {
+        if let Some((o, c)) = a {
+            let valid = Input::is_predicate_owner_valid(&Address::from(*o), c);
+            if valid == wrong.contains(&i) {
+                out.oracle_fail("predicate-owner-not-checked-on-is-predicate-owner-valid-path", &format!("is_predicate_owner_valid = {valid} for input {i}"), replay.clone());
+            }
+            let r = ov_validity(ins[i].check_signature(i, &id, &[], &mut None));
+            let expect = if wrong.contains(&i) { OwnerVerdict::Owner(i) } else { OwnerVerdict::Accepted };
+            if r != expect {
+                out.oracle_fail("predicate-owner-not-checked-on-input-check-signature-path", &format!("Input::check_signature on input {i}: {r:?}, expected {expect:?}"), replay.clone());
+            }
+        }
+    }
+    // ---- 2. transaction-level signature stage
+    let v_sig = judge(out, "Script::check_signatures", "check-signatures-path", guarded(|| ov_validity(tx.check_signatures(&params.chain_id()))), false);
+    // ---- 3. basic checking must not care; then the predicate stage through every entry point
+    let checked = match guarded(|| tx.clone().into_checked_basic(1u32.into(), &params)) {
+        Ok(Ok(c)) => c,
+        Ok(Err(e)) => {
+            out.notes.push(format!("owners case skipped after the signature stage: into_checked_basic: {e:?}"));
+            return;
+        }
+        Err(p) => {
+            out.oracle_fail("create-check-panic", &format!("into_checked_basic panicked: {p}"), replay.clone());
+            return;
+        }
+    };
+    let v_seq = judge(out, "predicates::check_predicates", "sequential-path",
+        guarded(|| ov_pred(predicates::check_predicates(&checked, &cpp, MemoryInstance::new(), &EmptyStorage, NotSupportedEcal))), false);
+    let mut par_verdicts = vec![];
+    for _ in 0..2 {
+        SHUFFLE_SEED.store(rng.next(), Ordering::SeqCst);
+        let v = judge(out, "predicates::check_predicates_async (shuffled delivery)", "async-path",
+            guarded(|| rt.block_on(async { ov_pred(predicates::check_predicates_async::<Script, NotSupportedEcal, ShuffleExec>(&checked, &cpp, &DummyPool, &EmptyStorage, NotSupportedEcal).await) })), true);
+        par_verdicts.push(v);
+    }
+    let _ = judge(out, "Checked::check_predicates", "checked-sequential-path",
+        guarded(|| ov_check(checked.clone().check_predicates(&cpp, MemoryInstance::new(), &EmptyStorage, NotSupportedEcal))), false);
+    SHUFFLE_SEED.store(rng.next(), Ordering::SeqCst);
+    let _ = judge(out, "Checked::check_predicates_async (shuffled delivery)", "checked-async-path",
+        guarded(|| rt.block_on(async { ov_check(checked.clone().check_predicates_async::<NotSupportedEcal, ShuffleExec>(&cpp, &DummyPool, &EmptyStorage, NotSupportedEcal).await) })), true);
+    // ---- 4. the one-call entry points
+    let v_full = judge(out, "IntoChecked::into_checked", "into-checked-path", guarded(|| ov_check(tx.clone().into_checked(1u32.into(), &params))), false);
+    let _ = judge(out, "IntoChecked::into_checked_reusable_memory", "into-checked-reusable-memory-path",
+        guarded(|| ov_check(tx.clone().into_checked_reusable_memory(1u32.into(), &params, MemoryInstance::new(), &EmptyStorage))), false);
+    let _ = judge(out, "Transaction::into_checked", "transaction-into-checked-path",
+        guarded(|| ov_check(Transaction::from(tx.clone()).into_checked(1u32.into(), &params))), false);
+
+    // ---- the model case: validity of every (owner, code) pair decides all verdicts
+    if let (true, Some(sg), Some(sq), Some(Some(p1)), Some(Some(p2)), Some(fl)) = (with_model, v_sig, v_seq, par_verdicts.first().cloned(), par_verdicts.get(1).cloned(), v_full) {
+        if [&sg, &sq, &p1, &p2, &fl].iter().any(|v| matches!(v, OwnerVerdict::Other(_))) {
+            return;
+        }
+        let coq_ins = coq_list(&abstract_inputs.iter().map(|a| coq_opt(a.as_ref().map(|(o, c)| coq_pair(&coq_bytes(o), &coq_long(c))))).collect::<Vec<_>>());
+        out.push(Case {
+            coq: format!("COwners {} {} {} {} {} {}", coq_ins, sg.coq(), sq.coq(), p1.coq(), p2.coq(), fl.coq()),
+            json: json!({"kind":"owners","inputs":desc,"lead_contract":lead_contract,"wrong":wrong,"check_signatures":format!("{sg:?}"),"sequential":format!("{sq:?}"),
+                         "parallel":[format!("{p1:?}"),format!("{p2:?}")],"into_checked":format!("{fl:?}"),"replay":replay}),
+            key: format!("owners:{}:{:?}", hexs(&*id), wrong),
+            nontrivial: !wrong.is_empty() || n >= 2,
+            class: if wrong.is_empty() { "owners-all-right".into() } else { "owners-some-wrong".into() },
+        });
+    }
+}
+
 // ------------------------------------------------------------------ driver
 fn replay(args: &Args, out: &mut Out, path: &str) {
     let v = read_replay(path);
@@ -638,6 +930,10 @@ fn replay(args: &Args, out: &mut Out, path: &str) {
         "id" => id_case(out, b32(&v["salt"]), b32(&v["root"]), b32(&v["state_root"]), "replay"),
         "create" => create_case(out, &mut rng, b32(&v["salt"]), Code::literal(bytes_of(&v["code"])), slots_from_json(&v["slots"]), CreatedKind::Right, "replay"),
         "vm" => vm_case(out, b32(&v["salt"]), Code::literal(bytes_of(&v["code"])), slots_from_json(&v["slots"]), "replay", true),
+        "owners" => {
+            let rt = tokio::runtime::Builder::new_multi_thread().worker_threads(4).enable_all().build().expect("tokio runtime");
+            owner_paths_case(out, &rt, v["case_seed"].as_u64().unwrap_or(0), true)
+        }
         "predicate" => predicate_vm_case(out, &mut rng, bytes_of(&v["code"]).get(4..).map(|x| x.to_vec()).unwrap_or_default()),
         k => eprintln!("ids: unknown replay kind {k}"),
     }
@@ -729,6 +1025,14 @@ fn run_c15(args: &Args, out: &mut Out) {
         };
         let tail = gen_code(&mut rng, tail_len).bytes;
         predicate_vm_case(out, &mut rng, tail);
+    }
+    // ---- predicate ownership through every public entry point (sequential, parallel, estimation, one-call)
+    let rt = tokio::runtime::Builder::new_multi_thread().worker_threads(4).enable_all().build().expect("tokio runtime");
+    for _ in 0..args.scale(30, 200) {
+        owner_paths_case(out, &rt, rng.next(), model);
+    }
+    for _ in 0..args.scale(150, 3000) {
+        owner_paths_case(out, &rt, rng.next(), false);
     }
 }
 
